@@ -133,7 +133,88 @@ Definition oracle_core (code : Z) (ps : list Z) (vs outs : list (list Z)) : Z :=
     ob (flags && mul_phase_ok n true true cnv ab ab a_k b_k a (map (pconst n) (v vs 1)) (cols_of n cols asz (v outs 0)) sk)
   else 2.
 
+
+(* ---------------- part 2, level 2 (real keys) ----------------
+   header: be n rank ab rb a_k b_k res_k cnv mode | kb dsize dnum k_tsk relb rel_k | seed
+   5201 outs = [sk, a.data, b.data, tensor.data, pt_tensor, relin.data, pt_relin, flags [tensor scratch-independent, relin scratch-independent]]
+   5202/5203 outs = [sk, a.data, res.data, pt_res, flags]
+   The verdict is the conjunction of
+     L1  the keyless part (tensor / product ciphertext) is reproduced bit for bit by the model from the ciphertext limbs,
+     L2a phase_{(1,s,s(x)s)}(tensor) = phase_s(a) phase_s(b) 2^cnv within E_norm + E_trunc,
+     L2b the implementation's own decryption differs from the oracle's exact phase by at most one unit of the plaintext's last limb,
+     L2c phase_s(relin) = phase(tensor) within the relinearisation envelope (see the header of this file),
+     L2d flags. *)
+Definition bits (b : bool) (k : Z) : Z := if b then 0 else k.
+
+Definition relin_env (n rank : nat) (PP R RR kb dsize dnum k_tsk : Z) : Z :=
+  let pairs := zn (rank * (rank + 1) / 2) in
+  let nn := zn n in
+  let gadget := pairs * dnum * nn * 2 ^ (dsize * kb) * 20 * 2 ^ (PP - k_tsk) in
+  let drop := if dnum * dsize * kb <? R then pairs * nn * nn * 2 ^ (PP - dnum * dsize * kb) else 0 in
+  let tsk_size := (k_tsk + kb - 1) / kb in
+  let minprec := Z.min (Z.min RR R) (tsk_size * kb) in
+  gadget + drop + 4 * (1 + zn rank * nn + pairs * nn * nn) * 2 ^ (PP - minprec).
+
+(* which of the checks fail, as a bit set: 1 = L1, 2 = L2a, 4 = L2b, 8 = L2c, 16 = decrypt of relin, 32 = tensor flag, 64 = relin flag *)
+Definition l2_tensor_fail (ps : list Z) (vs outs : list (list Z)) : Z :=
+  let n := np ps 1 in let fft := is_fft ps in
+  let rank := np ps 2 in let cols := S rank in let tcols := (cols * (cols + 1) / 2)%nat in
+  let ab := p ps 3 in let rb := p ps 4 in
+  let a_k := p ps 5 in let cnv := p ps 8 in let mode := p ps 9 in
+  let b_k := if mode =? 2 then a_k else p ps 6 in let res_k := p ps 7 in
+  let kb := p ps 10 in let dsize := p ps 11 in let dnum := p ps 12 in let k_tsk := p ps 13 in
+  let relb := p ps 14 in let rel_k := p ps 15 in
+  let sz k b := Z.to_nat ((k + b - 1) / b) in
+  let asz := sz a_k ab in let bsz := sz b_k ab in let rsz := sz res_k rb in let relsz := sz rel_k relb in
+  let sk := map (fun i => firstn n (skipn (n * i) (v outs 0))) (seq 0 rank) in
+  let a := cols_of n cols asz (v outs 1) in
+  let b := if mode =? 2 then a else cols_of n cols bsz (v outs 2) in
+  let t0 := cols_of n tcols rsz (v vs 2) in
+  let t1 := cols_of n tcols rsz (v outs 3) in
+  let l1 := match glwe_tensor fft n mode cnv rank ab rb a_k b_k a b t0 with
+            | Some g => list_eqb (flat_of tcols rsz g) (v outs 3) | None => false end in
+  let l2a := tensor_phase_ok n mode cnv rank ab rb a_k b_k a b t0 t1 sk in
+  let k1 := key1 n sk in let k2 := key2 n sk in
+  let R := zn rsz * rb in let RR := zn relsz * relb in
+  let pht := phase n R rb t1 k2 in
+  let l2b := tor_dist R (pval n R rb (colof n 1 rsz 0 (v outs 4))) pht <=? 1 in
+  let rl := cols_of n cols relsz (v outs 5) in
+  let PP := R + RR + k_tsk in
+  let phr := phase n RR relb rl k1 in
+  let l2c := tor_dist PP (pscale (2 ^ (PP - RR)) phr) (pscale (2 ^ (PP - R)) pht) <=? relin_env n rank PP R RR kb dsize dnum k_tsk in
+  let l2e := tor_dist RR (pval n RR relb (colof n 1 relsz 0 (v outs 6))) phr <=? 1 in
+  bits l1 1 + bits l2a 2 + bits l2b 4 + bits l2c 8 + bits l2e 16
+  + bits (nth 0 (v outs 7) 0 =? 1) 32 + bits (nth 1 (v outs 7) 0 =? 1) 64.
+
+Definition l2_mul_fail (code : Z) (ps : list Z) (vs outs : list (list Z)) : Z :=
+  let n := np ps 1 in let fft := is_fft ps in
+  let rank := np ps 2 in let cols := S rank in
+  let ab := p ps 3 in let rb := p ps 4 in
+  let a_k := p ps 5 in let b_k := p ps 6 in let res_k := p ps 7 in let cnv := p ps 8 in
+  let assign := p ps 9 =? 1 in
+  let isc := code =? 5203 in
+  let ob_ := if assign then ab else rb in let ok_ := if assign then a_k else res_k in
+  let sz k b := Z.to_nat ((k + b - 1) / b) in
+  let asz := sz a_k ab in let bsz := sz b_k ab in let rsz := sz ok_ ob_ in
+  let sk := map (fun i => firstn n (skipn (n * i) (v outs 0))) (seq 0 rank) in
+  let a := cols_of n cols asz (v outs 1) in
+  let r0 := if assign then a else cols_of n cols rsz (v vs 2) in
+  let r1 := cols_of n cols rsz (v outs 2) in
+  let bpl := colof n 1 bsz 0 (v vs 1) in
+  let l1 := match (if isc then glwe_mul_const fft n assign cnv ab ob_ a (v vs 1) r0
+                   else glwe_mul_plain fft n cnv ab ob_ a_k b_k a bpl r0) with
+            | Some g => list_eqb (flat_of cols rsz g) (v outs 2) | None => false end in
+  let l2a := mul_phase_ok n isc assign cnv ab ob_ a_k b_k a (if isc then map (pconst n) (v vs 1) else bpl) r1 sk in
+  let k1 := key1 n sk in
+  let R := zn rsz * ob_ in
+  let l2b := tor_dist R (pval n R ob_ (colof n 1 rsz 0 (v outs 3))) (phase n R ob_ r1 k1) <=? 1 in
+  bits l1 1 + bits l2a 2 + bits l2b 4 + bits (nth 0 (v outs 4) 0 =? 1) 32.
+
+Definition l2_fail (code : Z) (ps : list Z) (vs outs : list (list Z)) : Z :=
+  if code =? 5201 then l2_tensor_fail ps vs outs else l2_mul_fail code ps vs outs.
+
 Definition oracle_c05 (code : Z) (ps : list Z) (vs outs : list (list Z)) : Z :=
   if code <? 5100 then oracle_hal code ps vs outs
   else if code <? 5200 then oracle_core code ps vs outs
+  else if code <? 5300 then ob (l2_fail code ps vs outs =? 0)
   else 2.
